@@ -47,6 +47,7 @@
 #include <dirent.h>
 #include <setjmp.h>
 #include <ucontext.h>
+#include <stdint.h>
 #include <sys/syscall.h>
 #include <time.h>
 #include <sys/socket.h>
@@ -187,13 +188,32 @@ static void segv_handler(int sig, siginfo_t *si, void *ucv)
 		return;
 	}
 	char fn[128] = "?", key[200];
-	void *pc = (void *)uc->uc_mcontext.gregs[REG_RIP];
+	/* Name the innermost frame that belongs to this binary (libevent or harness), not libc's
+	 * memmove/strcasecmp variant: candidates are the faulting pc, the return address on top of the
+	 * stack (leaf routines fault before pushing anything) and the frame-pointer chain. */
+	void *cand[6]; int n_cand = 0;
+	uintptr_t rsp = (uintptr_t)uc->uc_mcontext.gregs[REG_RSP], rbp = (uintptr_t)uc->uc_mcontext.gregs[REG_RBP];
+	cand[n_cand++] = (void *)uc->uc_mcontext.gregs[REG_RIP];
+	cand[n_cand++] = (void *)((uintptr_t)*(void **)rsp - 1);
+	for (int d = 0; d < 4 && rbp > rsp && rbp < rsp + (1u << 20) && (rbp & 7) == 0; d++) {
+		cand[n_cand++] = (void *)((uintptr_t)((void **)rbp)[1] - 1);
+		uintptr_t next = (uintptr_t)((void **)rbp)[0];
+		if (next <= rbp) break;
+		rbp = next;
+	}
 	/* symbolizing is slow (external symbolizer): remember the few pcs seen */
 	static struct { void *pc; char fn[128]; } cache[32]; static int n_cache; int ci;
+	void *pc = cand[0];
 	for (ci = 0; ci < n_cache; ci++) if (cache[ci].pc == pc) break;
 	if (ci < n_cache) snprintf(fn, sizeof fn, "%s", cache[ci].fn);
 	else {
-		__sanitizer_symbolize_pc(pc, "%f", fn, sizeof fn);
+		static char self[256]; char mod[300];
+		if (!self[0]) { ssize_t l = readlink("/proc/self/exe", self, sizeof self - 1); if (l < 0) l = 0; self[l] = 0; }
+		for (int i = 0; i < n_cand; i++) {
+			mod[0] = 0;
+			__sanitizer_symbolize_pc(cand[i], "%m", mod, sizeof mod);
+			if (i == n_cand - 1 || !strcmp(mod, self)) { __sanitizer_symbolize_pc(cand[i], "%f", fn, sizeof fn); if (!strcmp(mod, self)) break; }
+		}
 		if (n_cache < 32) { cache[n_cache].pc = pc; snprintf(cache[n_cache].fn, sizeof cache[n_cache].fn, "%s", fn); n_cache++; }
 	}
 	snprintf(key, sizeof key, "crash:SIGSEGV:%s", fn);
